@@ -1,5 +1,5 @@
 """C06: precedence and associativity - an expression means its fully parenthesised form."""
-import itertools, math
+import copy, itertools, math
 from framework import Check, Case
 from jqlib import simple_run, run_impl, hx, unhx, RunRes
 import pyref, opref
@@ -23,7 +23,7 @@ L_ATOM, L_SUFFIX, L_PREFIX, L_POSTFIX, L_ASSIGN = 10, 8, 7, 6, 1
 
 def level(e):
     k = e[0]
-    if k in ("num", "str", "lit", "var", "arr"):
+    if k in ("num", "str", "lit", "var", "arr", "prim"):
         return L_ATOM
     if k in ("member", "index", "call"):
         return L_SUFFIX
@@ -51,7 +51,7 @@ def rmin(e, need=1):
         s = e[1]
     elif k == "str":
         s = q(e[1])
-    elif k in ("lit", "var"):
+    elif k in ("lit", "var", "prim"):
         s = e[1]
     elif k == "arr":
         s = "[" + ", ".join(rmin(x, 1) for x in e[1]) + "]"
@@ -85,6 +85,8 @@ def rfull(e, top=True):
         return rmin(e)
     if k == "arr":
         return "[" + ", ".join(rfull(x) for x in e[1]) + "]"
+    if k == "prim":
+        return "(" + e[1] + ")"             # a primary written out in full (match, literal, call, group): the full form brackets it
     if k == "member":
         s = rfull(e[1]) + "." + e[2]
     elif k == "index":
@@ -134,6 +136,8 @@ def store(e, env, val):
     k = e[0]
     if k == "var":
         env[e[1]] = val
+    elif k in ("member", "index") and e[1][0] == "prim" and e[1][2]["fresh"]:
+        pass                                # an element of a value that the primary has just made: nothing can see the store
     elif k == "member" and e[1][0] == "var" and isinstance(env.get(e[1][1]), dict):
         env[e[1][1]][e[2]] = val
     elif k == "index" and e[1][0] == "var" and isinstance(env.get(e[1][1]), list) and e[2][0] == "num":
@@ -154,6 +158,8 @@ def ev(e, env):
         return env[e[1]]
     if k == "arr":
         return [ev(x, env) for x in e[1]]
+    if k == "prim":
+        return copy.deepcopy(e[2]["v"])
     if k == "member":
         b = ev(e[1], env)
         if isinstance(b, dict):
@@ -165,6 +171,8 @@ def ev(e, env):
         if isinstance(b, str) and b.isascii() and isinstance(i, float) and not isinstance(i, bool):
             n = pyref.trunc_int64(i)
             return b[n] if 0 <= n < len(b) else None
+        if isinstance(b, dict) and isinstance(i, str):
+            return b.get(i)
         if not isinstance(b, list) or isinstance(i, bool) or not isinstance(i, float):
             raise Unsupported()
         n = pyref.trunc_int64(i)
@@ -176,7 +184,7 @@ def ev(e, env):
     if k == "call":
         f = e[1]
         args = [ev(a, env) for a in e[2]]
-        if f == ("var", "inc"):
+        if f == ("var", "inc") or (f[0] == "prim" and f[2]["v"] == FN_INC):
             return opref.binop("+", args[0], 1.0)
         if f == ("var", "sub"):
             return opref.binop("-", args[0], args[1])
@@ -263,6 +271,8 @@ TOKNAME = ["Ident", "Str", "Num", "true", "false", "null", "$"] + TOKTEXT[7:]
 def want_ast(e):
     """the AST the documented grammar assigns to the tree, with token names for tags and texts for positions"""
     k = e[0]
+    if k == "prim":
+        raise Unsupported()
     if k == "num":
         return "(lit Num %s)" % e[1]
     if k == "str":
@@ -464,6 +474,139 @@ def free_tree(rng, d):
             return ("call", go(d - 1), [go(d - 2) for _ in range(rng.randint(0, 2))])
         return ("arr", [go(d - 2) for _ in range(rng.randint(0, 2))])
     return go(d)
+
+
+# ---------------------------------------------------------------------------- primaries that end in a bracket, as the leftmost operand
+FN_INC = "\0function inc"
+
+
+def prim(text, v, fresh=True):
+    return ("prim", text, {"v": v, "fresh": fresh})
+
+
+# text -> value under the prelude (a = 3, b = 5, c = 7, arr = [2, 3, 5, 7], obj = {k: 7, m: {n: 11}}); every one ends in } ] or )
+PRIMARIES = [
+    # match expressions: one case, several cases, trailing comma, binding patterns, array patterns, block body, no case matches
+    prim("match (a) { 3 => 2 }", 2.0),
+    prim("match (a) { 3 => 2, }", 2.0),
+    prim("match (b) { 3 => 1, 5 => 4 }", 4.0),
+    prim("match (c) { 3 => 1, _ => 6 }", 6.0),
+    prim("match (b) { 3 => 1 5 => 4 9 => 0 }", 4.0),
+    prim("match (a) { n => n + 4 }", 7.0),
+    prim("match ([a, b]) { [3, y] => y }", 5.0),
+    prim("match (a) { 1, 3 => 2.5 }", 2.5),
+    prim("match (a) { 3 => { v7 = 19 } }", None),
+    prim("match (a) { 3 => { } }", None),
+    prim("match (a) { 9 => 1 }", None),
+    prim("match (a) { }", None),
+    prim('match (s) { "x" => "ab" }', "ab"),
+    prim("match (a) { 3 => true }", True),
+    prim("match (a) { 3 => [7, 8] }", [7.0, 8.0]),
+    prim("match (a) { 3 => [[1, 4], [9, 6]] }", [[1.0, 4.0], [9.0, 6.0]]),
+    prim("match (a) { 3 => ({k: 5}) }", {"k": 5.0}),
+    prim("match (a) { 3 => inc }", FN_INC),
+    prim("match (match (a) { 3 => 5 }) { 5 => 9 }", 9.0),
+    # object and array literals
+    prim("{k: 5}", {"k": 5.0}),
+    prim("{k: 5, m: {n: 6}}", {"k": 5.0, "m": {"n": 6.0}}),
+    prim('{"k": [4, 9]}', {"k": [4.0, 9.0]}),
+    prim("{}", {}),
+    prim("[7, 8]", [7.0, 8.0]),
+    prim("[[1, 4], [9, 6]]", [[1.0, 4.0], [9.0, 6.0]]),
+    prim('["ab", "cd"]', ["ab", "cd"]),
+    prim("[]", []),
+    # calls
+    prim("inc(1)", 2.0),
+    prim("thirteen()", 13.0),
+    prim("sub(9, 2)", 7.0),
+    prim("inc(inc(1))", 3.0),
+    prim("arr.length()", 4.0),
+    prim('"ab".upper()', "AB"),
+    # parenthesised groups
+    prim("(7)", 7.0),
+    prim("(a)", 3.0),
+    prim("((b))", 5.0),
+    prim("(a + b)", 8.0),
+    prim("(s)", "x"),
+    prim("(arr)", [2.0, 3.0, 5.0, 7.0], False),
+    prim("(obj)", {"k": 7.0, "m": {"n": 11.0}}, False),
+    prim("(inc)", FN_INC),
+    prim("(null)", None),
+    # index and member results that end in ] or )
+    prim("arr[1]", 3.0, False),
+    prim("obj.m", {"n": 11.0}, False),
+]
+
+
+def prim_heads(p, rng):
+    """scalar-valued expressions that begin with the primary: the primary itself, or suffixes applied to it"""
+    v = p[2]["v"]
+    out = []
+    if v == FN_INC:
+        out.append(("call", p, [("num", rng.choice(["4", "1", "2.5"]))]))
+        out.append(("call", p, [("call", p, [("num", "1")])]))
+    elif isinstance(v, list):
+        for i, x in enumerate(v):
+            h = ("index", p, ("num", str(i)))
+            if isinstance(x, list):
+                out.append(("index", h, ("num", str(rng.randrange(len(x))))))
+                out.append(("call", ("member", h, "length"), []))
+            elif isinstance(x, str):
+                out.append(h)
+                out.append(("index", h, ("num", "1")))
+                out.append(("call", ("member", h, "upper"), []))
+            else:
+                out.append(h)
+        out.append(("index", p, ("num", "5")))                      # nothing there: null
+        if v:
+            out.append(("index", p, ("pre", "-", ("num", "1"))))
+        out.append(("call", ("member", p, "length"), []))
+    elif isinstance(v, dict):
+        for k2, x in v.items():
+            h = ("member", p, k2)
+            if isinstance(x, dict):
+                out.append(("member", h, sorted(x)[0]))
+                out.append(("call", ("member", h, "length"), []))
+            elif isinstance(x, list):
+                out.append(("index", h, ("num", "1")))
+                out.append(("call", ("member", h, "length"), []))
+            else:
+                out.append(h)
+                out.append(("index", p, ("str", k2)))
+        out.append(("member", p, "zz"))
+        out.append(("call", ("member", p, "length"), []))
+    elif isinstance(v, str):
+        out.append(p)
+        out.append(("index", p, ("num", "0")))
+        out.append(("call", ("member", p, "length"), []))
+        out.append(("call", ("member", p, "upper"), []))
+    elif isinstance(v, float) and not isinstance(v, bool):
+        out.append(p)
+        out.append(("call", ("member", p, rng.choice(["floor", "ceil", "round"])), []))
+    else:
+        out.append(p)
+    return out
+
+
+def replace_leftmost(t, h):
+    """the tree with its textually first leaf (a number) replaced by h, or None when the tree does not begin with a number"""
+    k = t[0]
+    if k == "num":
+        return h
+    if k in ("bin", "asg"):
+        if k == "asg":
+            return None
+        l = replace_leftmost(t[2], h)
+        return None if l is None else ("bin", t[1], l, t[3])
+    if k == "is":
+        l = replace_leftmost(t[1], h)
+        return None if l is None else ("is", l, t[2])
+    if k == "post":
+        return None
+    if k in ("member", "index", "call"):
+        l = replace_leftmost(t[1], h)
+        return None if l is None else (k, l) + t[2:]
+    return None
 
 
 def shapes(n):
@@ -709,6 +852,9 @@ class C06(Check):
             "mixed, + with strings) against the fully parenthesised form found by precedence reduction, assignment chains, prefix "
             "operator chains, redundant and overriding parentheses, calls inside arguments, at every size up to the largest that "
             "fits a 64 KiB program (to 40 operands as trees against the model, larger on the implementation alone); "
+            "bracket-terminated primaries (44 match expressions, object/array literals, calls, groups) as the LEFTMOST operand of every "
+            "infix operator, of operator pairs/triples under every shape, of prefix/postfix operators and index/member/call suffixes, "
+            "in print, argument, element and assignment positions, flat vs. the primary in its own parentheses; "
             "non-trivial = at least two infix operators and the minimal rendering omits parentheses")
 
     def project(self, r):
@@ -770,12 +916,64 @@ class C06(Check):
                         break
             self.add_tree(t, "random depth %d" % depth(t))
         self.chains(rng, thorough)
+        self.primaries(rng, thorough)
         # parse-only trees
         for i in range(3000 if thorough else 300):
             t = free_tree(rng, rng.choice([2, 3, 4, 5, 7]))
             if len(rmin(t)) < 600:
                 self.add_tree(t, "parse-only", run=False)
         return self.cases
+
+    # ------------------------------------------------------------------ bracket-terminated primaries in front
+    def primaries(self, rng, thorough):
+        """a match expression, object/array literal, call or group as the LEFTMOST operand of every infix operator, of operator
+        pairs and triples under every shape, under prefix and postfix operators and with index/member/call suffixes, flat
+        against the form with the primary (and every application) in its own parentheses; as a print operand and inside
+        other expression positions"""
+        nonassign = [o for o in ALLOPS if o not in ASSIGN]
+        pairs = [ops for ops in itertools.product(nonassign, ALLOPS)]
+        triples = [ops for ops in itertools.product(nonassign, ALLOPS, ALLOPS)]
+        for p in PRIMARIES:
+            heads = prim_heads(p, rng)
+            if not thorough and len(heads) > 4:
+                heads = heads[:1] + rng.sample(heads[1:], 3)
+            for h in heads:
+                what = "primary %s" % p[1]
+                trees = []
+                for op in BIN:
+                    right = ("str", rng.choice(["1", "b", "^A"])) if op in ("~", "!~") else ("num", rng.choice(["2", "3", "5", "7"]))
+                    trees.append(("bin", op, h, right))
+                trees.append(("is", h, rng.choice(["number", "null", "string", "array"])))
+                for tgt in ("v0", "v1"):
+                    trees.append(("asg", rng.choice(ASSIGN), ("var", tgt), ("bin", rng.choice(["+", "-", "*"]), h, ("num", "2"))))
+                for pre in ("-", "!", "+"):
+                    trees.append(("bin", rng.choice(BIN[:11]), ("pre", pre, h), ("num", "2")))
+                if h[0] in ("member", "index") and h[1][0] == "prim" and h[1][2]["fresh"]:
+                    for po in ("++", "--"):
+                        trees.append(("post", po, h))
+                        trees.append(("bin", rng.choice(["+", "*", "-", "<"]), ("post", po, h), ("num", "2")))
+                for ops in rng.sample(pairs, 40 if thorough else 6):
+                    for sh in shapes(2):
+                        t = instantiate(sh, ops, rng)
+                        t = replace_leftmost(t, h) if t is not None else None
+                        if t is not None:
+                            trees.append(t)
+                for ops in rng.sample(triples, 15 if thorough else 4):
+                    for sh in rng.sample(shapes(3), 2):
+                        t = instantiate(sh, ops, rng)
+                        t = replace_leftmost(t, h) if t is not None else None
+                        if t is not None:
+                            trees.append(t)
+                for t in trees:
+                    # where the expression stands: print operand (most), call argument, array element, right side of an assignment
+                    k = rng.random()
+                    if k < 0.1:
+                        t = ("call", ("var", "inc"), [t])
+                    elif k < 0.2:
+                        t = ("index", ("arr", [t, ("num", "1")]), ("num", "0"))
+                    elif k < 0.3 and t[0] != "asg":
+                        t = ("asg", "=", ("var", "v5"), t)
+                    self.add_tree(t, what)
 
     # ------------------------------------------------------------------ long chains
     def chains(self, rng, thorough):
@@ -930,7 +1128,10 @@ class C06(Check):
                 if ref is not None:
                     meta["want_outcome"], meta["want_stdout"] = ref
                 self.cases.append(Case(cid, simple_run(cid, program(text)), meta, nontrivial))
-        want = want_ast(t) if self.names else None
+        try:
+            want = want_ast(t) if self.names else None
+        except Unsupported:
+            want = None                     # trees with a written-out primary: the two renderings are compared with each other only
         for form, text in (("minimal", a), ("full", b)):
             cid = "%sp%s" % (key, form[0])
             meta = dict(base, form=form, kind="parse", src=text)
